@@ -166,6 +166,14 @@ def check(prop, ev, bounds=None, cvc5_cross=False):
         ev.cov["constant_soundness_assumed_for"] = assumed
     except Unencodable as e:
         inconc.append(f"unencodable (constructor / constant lemmas): {e}")
+    if prop == "C12":
+        try:
+            import simlemmas
+            mo, mf = simlemmas.obligations(S)
+            obls = obls + mo
+            fns = sorted(set(fns) | set(mf))
+        except Unencodable as e:
+            inconc.append(f"unencodable (assignment simulation lemma): {e}")
     ev.cov["functions_encoded"] = [f"{n} [mir sha256:{h}]" for n, h in fns]
     ev.cov["node_stats"] = stats
     ev.cov["expression_impls_audited"] = found
@@ -206,6 +214,9 @@ def check(prop, ev, bounds=None, cvc5_cross=False):
             if ":stdlib::" in role and not role.startswith("C17:"):
                 import driverlemmas
                 res = [(a, b, {}) for a, b in driverlemmas.battery()]
+            elif role.endswith(":recorded-constant-is-the-stored-value"):
+                import simlemmas
+                res = [(a, b, {}) for a, b in simlemmas.battery()]
             elif role.endswith(":operand-constants-are-read-in-the-state-of-evaluation"):
                 res = [(a, b, {}) for a, b in stateflowlemmas.battery()]
             elif role.endswith(":ok-type-includes-default-kind"):
